@@ -845,6 +845,9 @@ func (o *Oracle) onFSMHandoff(f *SimFSM, e Ent) {
 			if l, ok := d.ent(i); ok && o.fsmSees(l.Type) {
 				v := w.violate("C02", "C02/entry-skipped", "%s: FSM handed index %d right after %d but its own log holds a %v entry at %d", inc.tag, e.Index, f.lastHandled, l.Type, i)
 				v.Facts["judged_by_own_log_only"] = "true"
+				// the hand-off that follows an installed snapshot directly must continue right above it; a server that
+				// runs ahead of the cluster after its own aborted user Restore is the open finding KF-C02-...
+				v.Facts["right_after_installed_snapshot"] = fmt.Sprint(f.restored && f.restoreVia == "install" && f.lastHandled == f.restoreIdx)
 				break
 			}
 		}
@@ -879,6 +882,14 @@ func (o *Oracle) onFSMRestore(f *SimFSM, st FSMState) {
 	f.applied = map[uint64]int64{}
 	f.lastHandled = k
 	f.restoreIdx = k
+	switch {
+	case o.installing[inc.node.idx] > 0:
+		f.restoreVia = "install"
+	case o.userRestoring[inc.node.idx] > 0:
+		f.restoreVia = "user"
+	default:
+		f.restoreVia = "boot"
+	}
 	if o.tainted != "" || k == 0 {
 		return
 	}
